@@ -200,25 +200,38 @@ def run_case(case, fail, stats):
         for scalar in (False, True):
             for resc in (None, tuple(case["range"])):
                 view = opt.get_merit_function(return_scalar=scalar, rescale_x=resc, check_limits=False)
-                x = view.get_x()
-                try:
-                    J = np.atleast_2d(view.get_jacobian(x))
-                except Exception as e:
-                    fail("C16", "view-jacobian-raises", {"scalar": scalar, "rescale": resc, "exc": type(e).__name__})
-                    continue
-                f0 = np.atleast_1d(view(x))
-                h = 1e-5
-                Jfd = np.zeros((len(f0), len(x)))
-                for j in range(len(x)):
-                    # central differences: exact (up to rounding) for the quadratic scalar view
-                    xp, xm = np.array(x, dtype=float), np.array(x, dtype=float)
-                    xp[j] += h
-                    xm[j] -= h
-                    Jfd[:, j] = (np.atleast_1d(view(xp)) - np.atleast_1d(view(xm))) / (2 * h)
-                tol = 1e-3 * max(1.0, float(np.max(np.abs(Jfd))))
-                if J.shape != Jfd.shape or not np.allclose(J, Jfd, rtol=1e-3, atol=tol):
-                    fail("C16", "view-jacobian-differs-from-finite-differences",
-                         {"scalar": scalar, "rescale": resc, "J": J.tolist(), "fd": Jfd.tolist(), "case": {k: case[k] for k in ("A", "weights", "limits", "range")}})
+                # the same view object three times: as built, after the limits of a knob changed, after a weight changed
+                # (the view reads limits and weights on every call, so its Jacobian has to follow them as well)
+                lim0, w0 = np.array(vary[0].limits, dtype=float), vary[-1].weight
+                for phase in ("built", "limits-changed", "weight-changed", "restored"):
+                    if phase == "restored":
+                        vary[0].limits, vary[-1].weight = lim0, w0
+                    if phase == "limits-changed":
+                        lo, hi = vary[0].limits
+                        vary[0].limits = np.array([lo * 1.5 - 0.25, hi * 2.0 + 0.5])
+                    elif phase == "weight-changed":
+                        vary[-1].weight = vary[-1].weight * 4.0
+                    x = view.get_x()
+                    try:
+                        J = np.atleast_2d(view.get_jacobian(x))
+                    except Exception as e:
+                        fail("C16", "view-jacobian-raises", {"scalar": scalar, "rescale": resc, "exc": type(e).__name__, "phase": phase})
+                        continue
+                    f0 = np.atleast_1d(view(x))
+                    h = 1e-5
+                    Jfd = np.zeros((len(f0), len(x)))
+                    for j in range(len(x)):
+                        # central differences: exact (up to rounding) for the quadratic scalar view
+                        xp, xm = np.array(x, dtype=float), np.array(x, dtype=float)
+                        xp[j] += h
+                        xm[j] -= h
+                        Jfd[:, j] = (np.atleast_1d(view(xp)) - np.atleast_1d(view(xm))) / (2 * h)
+                    tol = 1e-3 * max(1.0, float(np.max(np.abs(Jfd))))
+                    stats["viewjac_checks"] = stats.get("viewjac_checks", 0) + 1
+                    if J.shape != Jfd.shape or not np.allclose(J, Jfd, rtol=1e-3, atol=tol):
+                        fail("C16", "view-jacobian-differs-from-finite-differences",
+                             {"scalar": scalar, "rescale": resc, "phase": phase, "J": J.tolist(), "fd": Jfd.tolist(),
+                              "case": {k: case[k] for k in ("A", "weights", "limits", "range")}})
     else:
         raise ValueError(kind)
 
